@@ -21,6 +21,10 @@
 //	cd /verif && GOFLAGS=-mod=mod GOPROXY=off go test -count=1 -v ./notes/repro/C16_error_close_leaves_deadline_timer_armed/
 //
 // Plain /repo (no overlay, no verif build tag), real sockets, real time.
+//
+// Status: fails on the tree before /repo commit fff2607 ("fix: a connection closed by its own I/O
+// error stops its deadline timers"), passes from that commit on (the test then logs that both
+// timers are nil after the overflow close).
 package repro
 
 import (
